@@ -282,3 +282,39 @@ Proof.
   intro Hmax. unfold run_heap. apply run_heap_from_inv; [assumption|].
   destruct (init_sim c init Hmax) as [m [E [I _]]]. rewrite E. simpl. now constructor.
 Qed.
+
+(* ---- the model's own observations satisfy the Spec ----------------------------------------- *)
+(* every operation names caches that exist at that point of the history *)
+Fixpoint all_valid (c : cfg) (h : list cache) (ops : list hop) : bool :=
+  match ops with
+  | [] => true
+  | o :: rest => valid_hop (length h) o && all_valid c (fst (hobserve c h o)) rest
+  end.
+
+Lemma obs_agree_refl m out cb : obs_agree (observe cb m out) (observe cb m out) = true.
+Proof.
+  unfold obs_agree, observe. simpl.
+  rewrite res_eqb_refl, Nat.eqb_refl, !N.eqb_refl. simpl.
+  rewrite (proj2 (list_eqb_eq Nat.eqb Nat.eqb_eq _ _) eq_refl). simpl.
+  apply (list_eqb_eq kv_eqb kv_eqb_eq). reflexivity.
+Qed.
+
+Lemma agree_walk_own c ops : forall h,
+  agree_walk c h (combine ops (model_trace c h ops)) = all_valid c h ops.
+Proof.
+  induction ops as [|o rest IH]; intro h; simpl; [reflexivity|].
+  destruct (hobserve c h o) as [h' mo] eqn:HO. simpl. rewrite HO. rewrite IH.
+  assert (R : obs_agree mo mo = true).
+  { unfold hobserve in HO. destruct (hstep c h o) as [[h'' i] out]. inversion HO; subst.
+    apply obs_agree_refl. }
+  rewrite R. now rewrite andb_true_r.
+Qed.
+
+Lemma model_satisfies_spec c init ops :
+  1 <= c_max c -> all_valid c [fst (init_cache c init)] ops = true ->
+  spec_check c init (combine ops (model_run c init ops)) = true.
+Proof.
+  intros Hmax V. apply agree_implies_holds; [assumption|].
+  unfold agree_check, model_run. destruct (init_sim c init Hmax) as [m [E _]]. rewrite E in *. simpl in *.
+  now rewrite agree_walk_own.
+Qed.
